@@ -16,6 +16,9 @@ import RsjProps.C17
 import RsjProps.C18
 import RsjProps.C03
 import RsjProps.C09
+import RsjProps.C07
+import RsjProps.C04Eval
+import RsjModel.PanicSites
 namespace Rsj.C01
 
 /-- Lexer: any byte sequence yields tokens or one error — never a panic at an `unwrap`
@@ -119,3 +122,99 @@ open Rsj.C01 in
 #print axioms C01_exit_code_range
 open Rsj.C01 in
 #print axioms C01_gc_no_destroyed_access
+
+/-! ### The inventory of panic-capable sites (generated table `RsjModel/PanicSites.lean`)
+
+`tools/extract_panic_sites.py` lists every `.unwrap()` / `.expect(..)` / `panic!` /
+`unreachable!` / `assert*!` / `unimplemented!` / `todo!` / print macro / `x[i]` / `x[a..b]` /
+non-literal `/` `%` / RefCell borrow / `split_at` … of `rsjsonnet-lang/src`,
+`rsjsonnet-front/src` and `rsjsonnet/src` under a key that is stable under line shifts, and
+`tools/panic_sites.toml` gives every key a class with a justification.  The theorems below
+are the obligation: a NEW site (or one whose text changed) has the class `UNMAPPED`, a
+vanished one leaves a stale entry, a new member of a bulk class moves a count — each of
+them makes one of these `decide`d statements false, so the build of this file fails. -/
+namespace Rsj.C01
+
+/-- The fixed vocabulary of classes (justifications: header of `RsjModel/PanicSites.lean`
+    and `tools/panic_sites.toml`).  `UNMAPPED` is not a class. -/
+def panicClasses : List String :=
+  [ "explicit-stack-pop", "guarded-locally", "type-guarded", "state-invariant", "construction-invariant",
+    "startup-invariant", "interner/arena-invariant", "refcell-scoped-borrow", "float-arith",
+    "infallible-by-type", "host-io", "host-api-contract", "external-crate-protocol", "unclassified-reviewed" ]
+
+/-- Theorems that a class `proved:<name>` may cite.  Hand-maintained; every name is tied to
+    the constant of that name by the `example`s below (a renamed or removed theorem breaks
+    the build). -/
+def provedTheorems : List String :=
+  [ "C01_lex_never_panics", "C01_span_no_panic", "C01_trace_crop_no_panic", "C01_trace_counter_no_panic",
+    "C01_radix_no_panic", "C01_compare_no_panic", "C01_gc_no_destroyed_access",
+    "C01_eval_set_done_assertion_never_fails", "C07_views_agree", "C14_drop_trivia", "C15_spans_nested",
+    "C09_eval_no_unbound_at_runtime" ]
+
+example := @Rsj.C01.C01_lex_never_panics
+example := @Rsj.C01.C01_span_no_panic
+example := @Rsj.C01.C01_trace_crop_no_panic
+example := @Rsj.C01.C01_trace_counter_no_panic
+example := @Rsj.C01.C01_radix_no_panic
+example := @Rsj.C01.C01_compare_no_panic
+example := @Rsj.C01.C01_gc_no_destroyed_access
+example := @Rsj.Eval.C01_eval_set_done_assertion_never_fails
+example := @Rsj.Object.C07_views_agree
+example := @Rsj.Lexer.C14_drop_trivia
+example := @Rsj.Parser.C15_spans_nested
+-- `C09_eval_no_unbound_at_runtime` lives in RsjProps/C09Eval.lean, which cannot be imported next to RsjProps.C04Eval
+-- (both elaborate equation lemmas of the same evaluator matchers; Lean refuses the duplicate auxiliary declarations).
+-- Its existence is checked by the build of RsjProps.C09Eval, which checks/c01.py builds and audits with this module.
+
+def provedClasses : List String := provedTheorems.map (fun t => "proved:" ++ t)
+
+/-- **C01 panic_sites_all_classified** (generated obligation).  Every panic-capable site of
+    the sources has a class of the fixed vocabulary or `proved:<T>` for a listed theorem `T`;
+    in particular none is `UNMAPPED`. -/
+theorem C01_panic_sites_all_classified :
+    ∀ s ∈ Rsj.PanicSites.sites, s.2 ∈ panicClasses ∨ s.2 ∈ provedClasses := by decide +kernel
+
+/-- **C01 panic_sites_proved_exist.**  Every class of the form `proved:<name>` names a theorem
+    of `provedTheorems` (each of which exists: the `example`s above). -/
+theorem C01_panic_sites_proved_exist :
+    ∀ s ∈ Rsj.PanicSites.sites, s.2.startsWith "proved:" = true → s.2 ∈ provedClasses := by decide +kernel
+
+/-- **C01 panic_sites_no_stale.**  No entry of the classification names a vanished site, no
+    rule is dead, and every pinned rule count is met. -/
+theorem C01_panic_sites_no_stale : Rsj.PanicSites.stale = [] := by decide
+
+def panicSiteCount (c : String) : Nat := (Rsj.PanicSites.sites.filter (fun s => s.2 == c)).length
+
+/-- **C01 panic_sites_counts.**  The size of the inventory and of every class (quoted by the
+    evidence).  771 sites: 394 pops / peeks / swaps of the evaluator's explicit stacks, 50 covered by
+    a theorem, 2 reviewed without a guard in sight or a theorem. -/
+theorem C01_panic_sites_counts :
+    Rsj.PanicSites.sites.length = 771 ∧
+    (panicClasses ++ provedClasses).map (fun c => (c, panicSiteCount c)) =
+      [ ("explicit-stack-pop", 394), ("guarded-locally", 134), ("type-guarded", 7), ("state-invariant", 69),
+        ("construction-invariant", 24), ("startup-invariant", 6), ("interner/arena-invariant", 5),
+        ("refcell-scoped-borrow", 13), ("float-arith", 9), ("infallible-by-type", 12), ("host-io", 24),
+        ("host-api-contract", 4), ("external-crate-protocol", 18), ("unclassified-reviewed", 2),
+        ("proved:C01_lex_never_panics", 6), ("proved:C01_span_no_panic", 6), ("proved:C01_trace_crop_no_panic", 2),
+        ("proved:C01_trace_counter_no_panic", 3), ("proved:C01_radix_no_panic", 0), ("proved:C01_compare_no_panic", 1),
+        ("proved:C01_gc_no_destroyed_access", 1), ("proved:C01_eval_set_done_assertion_never_fails", 1),
+        ("proved:C07_views_agree", 23), ("proved:C14_drop_trivia", 2), ("proved:C15_spans_nested", 1),
+        ("proved:C09_eval_no_unbound_at_runtime", 4) ] := by
+  decide +kernel
+
+/-- The obligation is not vacuous: the table is not empty, and the class the extractor gives
+    to an unclassified site is rejected by the test `C01_panic_sites_all_classified` applies. -/
+example : Rsj.PanicSites.sites ≠ [] ∧ ¬ ("UNMAPPED" ∈ panicClasses ∨ "UNMAPPED" ∈ provedClasses) ∧
+    ¬ ("proved:C01_no_such_theorem" ∈ panicClasses ∨ "proved:C01_no_such_theorem" ∈ provedClasses) := by
+  decide +kernel
+
+end Rsj.C01
+
+open Rsj.C01 in
+#print axioms C01_panic_sites_all_classified
+open Rsj.C01 in
+#print axioms C01_panic_sites_proved_exist
+open Rsj.C01 in
+#print axioms C01_panic_sites_no_stale
+open Rsj.C01 in
+#print axioms C01_panic_sites_counts
